@@ -132,6 +132,8 @@ def check(ctx, rep):
     rep.rule("R06f", "unset fields are completed alike by the Gopher menu line and gopher:// URLs (own host/port; other host -> port 70; no type -> 0)", floor=4)
     rep.rule("R06g", "= R04d: every protocol advertises adjust(entry.getmimetype()) for a selector (one MIME type per selector across protocols)", floor=1)
     rep.rule("R06h", "every URL-based protocol renders, for the same local entry, a link target that percent-decodes to the entry's selector (below the protocol's own prefix)", floor=1)
+    rep.rule("R06j", "gopher:// URLs for entries on another server are gopher://host:port/<type><selector> (RFC 4266): the URL protocols then point at "
+             "the same selector as the Gopher menu line does", floor=1)
     rep.rule("R06i", "= R15g: handlers build the entry list without looking at the protocol that asks", floor=1)
     rep.rule("R06d", "menu MIME type mapped to the protocol's listing type; adjust function total", floor=4)
     pb = ctx.cls("protocols.base.BaseGopherProtocol")
@@ -362,6 +364,7 @@ def check(ctx, rep):
     equivalent_target_obligations(ctx, rep, "R06h")
     from .c15 import protocol_independence_obligations
     protocol_independence_obligations(ctx, rep, "R06i")
+    gopher_url_obligations(ctx, rep, "R06j")
 
     # ------------------------------------------------------------------ R06d
     for P in protos:
@@ -482,6 +485,49 @@ def link_target_obligations(ctx, rep, rule="R06e"):
             problems.add("no path through the link renderer")
         rep.add(rule, f"{ro.qualname}: relative link exactly for entries without host and port", not problems, ctx.where(ro),
                 "; ".join(sorted(problems)[:3]), key=f"{rule}|{ro.qualname}")
+
+
+def gopher_url_obligations(ctx, rep, rule="R06j"):
+    """GopherEntry.geturl() evaluated on representative entries: the path of the URL is the type character followed by the
+    selector exactly as the menu line carries it (percent-encoded), a URL: selector is handed out as that URL."""
+    import urllib.parse as up
+
+    prog = ctx.prog
+    ge = ctx.cls("gopherentry.GopherEntry")
+    gu = prog.resolve_method(ge, "geturl") if ge else None
+    if gu is None:
+        rep.fail(rule, "GopherEntry.geturl", detail="URL builder not found")
+        return
+    cases = [("/fun/xkcd", "1", "other.example", 7070), ("fun/xkcd", "1", "other.example", 70), ("", "1", "other.example", 70),
+             ("/a b?c", "0", "other.example", None), ("/x", None, None, None), ("URL:http://example.org/a", "h", None, None),
+             ("/URL:http://example.org/a", "h", None, None)]
+    problems = []
+    n = 0
+    for sel, typ, host, port in cases:
+        facts = {"self.selector": Const(sel), "self.type": Const(typ), "self.host": Const(host), "self.port": Const(port)}
+        w = Walker(prog, ctx.resolver, assumptions=facts, sticky=set(facts), exact_loops=True, unroll=4,
+                   inline=lambda fn, t, d: d < 3 and t.bound_cls is not None)
+        outs = set()
+        try:
+            for p in w.run(gu, ge, env={gu.params[1]: Const("this.example"), gu.params[2]: Const(70)} if len(gu.params) > 2 else {}):
+                outs.add(p.value.value if p.kind == "return" and p.value is not None and p.value.kind == "const" else None)
+        except Exception:
+            outs = {None}
+        if len(outs) != 1 or None in outs:
+            continue
+        n += 1
+        got = next(iter(outs))
+        if "URL:" in sel:
+            want = sel.split("URL:", 1)[1]
+        else:
+            want = "gopher://%s:%s/" % (host or "this.example", port or 70) + up.quote((typ or "0") + sel, errors="surrogateescape")
+        if got != want:
+            problems.append(f"an entry (selector {sel!r}, type {typ!r}, host {host!r}, port {port!r}) gets the URL {got!r} instead of {want!r}: the URL-based "
+                            "protocols then link to a different selector than the Gopher menu line")
+    if n:
+        rep.add(rule, f"{gu.qualname}: gopher://host:port/<type><selector> [{n} entries]", not problems, ctx.where(gu), "; ".join(problems[:2]), key=f"{rule}|geturl")
+    else:
+        rep.ok(rule, f"{gu.qualname}: not evaluated", ctx.where(gu), "the walker could not follow geturl()", nontrivial=False)
 
 
 # ---------------------------------------------------------------------------- R06h
